@@ -18,4 +18,10 @@ GROUPS = [
  _p("tpdo_getmap", "COTPdoGetMap", 10, _PDO, {"C14": "quick", "C12": "quick", "C01": "quick"}, unwind_all=9, unwind={"COTPdoMapAdd.0": 33}, defs=["VW_OP=10", "CO_TPDO_N=4"]),
  _p("sync_prod_send", "COSyncProdSend", 11, _PDO, {"C16": "quick", "C09": "quick", "C01": "quick"}),
  _p("sync_handler_rx", "COSyncHandler", 4, _PDO, {"C13": "quick", "C16": "quick", "C01": "quick"}),
+ _p("sync_add", "COSyncAdd", 0, _PDO, {"C12": "quick", "C13": "quick", "C16": "quick", "C01": "quick"}, harness="pdo_reset_fn.c", defs=["VW_OP=0"]),
+ _p("sync_remove", "COSyncRemove", 1, _PDO, {"C12": "quick", "C13": "quick", "C16": "quick", "C01": "quick"}, harness="pdo_reset_fn.c", defs=["VW_OP=1"]),
+ _p("tpdo_reset", "COTPdoReset", 2, _PDO, {"C12": "quick", "C13": "quick", "C14": "quick", "C01": "quick"}, harness="pdo_reset_fn.c", defs=["VW_OP=2", "VW_MAPN_MAX=2"], unwind={"COTPdoMapAdd.0": 33},
+    bounded="stored mapping count <= 2 entries (the mapping itself is the tpdo_getmap group); everything else symbolic"),
+ _p("rpdo_reset", "CORPdoReset", 3, _PDO, {"C13": "quick", "C12": "quick", "C14": "quick", "C01": "quick"}, harness="pdo_reset_fn.c", defs=["VW_OP=3", "VW_MAPN_MAX=2"], unwind={"CORPdoGetMap.1": 4, "CORPdoGetMap.0": 8},
+    bounded="stored mapping count <= 2 entries (the mapping itself is the rpdo_getmap group); everything else symbolic"),
 ]
